@@ -434,6 +434,25 @@ def replay(ctx, rp):
 
 
 def run(ctx):
+    """a run against a private copy (VERIF_REPO: mutants, seeds) must not disturb the records of the real tree: the previous
+    evidence/C08.json is restored afterwards and the replays it wrote are moved to build/C08/mutant-replays/"""
+    if os.environ.get('VERIF_REPO') is None:
+        return run_checked(ctx)
+    import shutil, glob
+    ev = os.path.join(ctx.root, 'evidence', ctx.id + '.json')
+    saved = open(ev).read() if os.path.exists(ev) else None
+    before = set(glob.glob(os.path.join(ctx.root, 'replays', ctx.id + '-*.json')))
+    rc = run_checked(ctx)
+    if saved is not None: open(ev, 'w').write(saved)
+    elif os.path.exists(ev): os.remove(ev)
+    dst = os.path.join(ctx.build, 'mutant-replays'); os.makedirs(dst, exist_ok=True)
+    for f in set(glob.glob(os.path.join(ctx.root, 'replays', ctx.id + '-*.json'))) - before:
+        shutil.move(f, os.path.join(dst, os.path.basename(f)))
+    print('(VERIF_REPO run: evidence/%s.json restored; replays moved to %s)' % (ctx.id, dst), flush=True)
+    return rc
+
+
+def run_checked(ctx):
     scale = 1 if ctx.quick() else 4
     ctx.trusted += ['hand-written Gallina models (ArrayBucketModel.v, MultiMapModel.v, WrapperModel.v) mirror the C++ by reading; '
                     'bound to the code only by the differential run of their extracted OCaml against the real containers on every check',
@@ -535,6 +554,32 @@ def run(ctx):
         ctx.tie_obligations.append({'name': 'generated operator== / erase(first,last) over primitives evaluated on the real containers == real result (%d cases)' % len(ug), 'ok': good and not mism})
         for (c, w, g) in mism[:2]:
             ctx.violation('generated wrapper function and real function disagree', {'case': c, 'real': w[:400], 'generated': g[:400]}, found_input=True)
+    # ---- generated pvMove against the real pvMove on real key tables (two phases, like the wrapper functions)
+    if exes.get('gen') and have_gen:
+        r = ctx.rng; pm = []
+        for i in range(150 if ctx.quick() else 600):
+            ops = []; nk = r.choice([1, 2, 3, 5, 9, 20])
+            for _ in range(r.range(1, 40)):
+                k = r.below(nk)
+                ops.append(('a,%d,%d' % (k, r.below(99))) if r.chance(3, 4) else ('v,%d' % k))
+            pm.append('pm ' + ' '.join(ops))
+        path = os.path.join(ctx.build, 'pm.cases'); open(path, 'w').write('\n'.join(pm) + '\n')
+        rc, lines, err = ctx.run_lines([exes['gen']], path)
+        good = rc == 0 and len(lines) == len(pm) and all(' |||' in l for l in lines)
+        mism = []
+        if good:
+            tabs = ['pmt ' + l.split(' |||')[0] for l in lines]; want = [l.split(' |||')[1] for l in lines]
+            path2 = os.path.join(ctx.build, 'pmt.cases'); open(path2, 'w').write('\n'.join(tabs) + '\n')
+            rc2, got, err2 = ctx.run_lines([gen_exe], path2)
+            good = rc2 == 0 and len(got) == len(want)
+            mism = [(c, w, g) for c, w, g in zip(pm, want, got + ['<missing>'] * len(want)) if w.strip() != g.strip()]
+            ctx.evaluations += len(pm); ctx.traces_validated += len(pm) - len(mism)
+            ctx.coverage['generated_pvmove_direct'] = {'cases': len(pm), 'iterator_positions': sum(w.count('>') for w in want),
+                                                        'moved_to_end': sum(w.count('>end') for w in want), 'tables_with_valueless_keys': sum(1 for l in lines if ' 0' in l.split(' |||')[0])}
+        ctx.stage('corr:generated-pvmove-direct', good and not mism, (err[-300:] if not good else '') + (('first: %r real=%r generated=%r' % mism[0]) if mism else ''))
+        ctx.tie_obligations.append({'name': 'generated pvMove over the real key table == real pvMove (%d tables)' % len(pm), 'ok': good and not mism})
+        for (c, w, g) in mism[:2]:
+            ctx.violation('generated pvMove and real pvMove disagree', {'case': c, 'real': w[:400], 'generated': g[:400]}, found_input=True)
     ctx.stage('oracle', not total_bad, total_bad[0][2] if total_bad else '')
     for (c, out, why) in total_bad[:3]:
         ctx.violation(why, {'case': c, 'impl_output_tail': out, 'cmd': 'echo "%s" | %s' % (c, exes.get(cfg_of(c)))}, found_input=True)
